@@ -34,6 +34,9 @@ def main(argv):
     mod = load_check(pid)
     if hasattr(mod, "setup_worker"):
         mod.setup_worker()
+    from .monitors import steps
+
+    steps.start_coverage()
     cases = mod.plan(tier, seed)
     mine = only if only is not None else [i for i in range(len(cases)) if i % nshards == shard]
     timeout = int(getattr(mod, "CASE_TIMEOUT", 120))
@@ -57,6 +60,8 @@ def main(argv):
             res["_t"] = round(time.time() - t0, 2)
             fh.write(json.dumps({"i": i, "res": res}, default=str) + "\n")
             fh.flush()
+        fh.write(json.dumps({"coverage": steps.coverage_hits()}) + "\n")
+        fh.flush()
 
 
 if __name__ == "__main__":
